@@ -78,6 +78,30 @@ for _k in ("total", "windows", "buckets", "emb_windows", "emb_buckets", "emb_lea
     _CANCEL += ["points:cancel:" + _k, "cancel:%s/recv:aff" % _k, "cancel:%s/recv:jac" % _k, "cancel:%s/n>=769" % _k]
 _COMMON += _ERR + _CANCEL
 
+# white-box processor table as a product: every entry of getChunkProcessorG1/G2 (one extended-Jacobian entry per window
+# size incl. the last-window sizes, one batch-affine entry per window size >= 10) of every curve must have been executed
+_FR_BITS = {"bn254": 254, "bls12-377": 253, "bls12-381": 255, "bls24-315": 253, "bls24-317": 255, "bw6-633": 315,
+            "bw6-761": 377, "secp256k1": 256, "grumpkin": 254}
+_CS = {c: list(range(4, 17)) for c in _FR_BITS}
+_CS.update({"bw6-633": [4, 5, 6, 8, 12, 16], "bw6-761": [4, 5, 8, 10, 16], "secp256k1": list(range(4, 16))})
+
+
+def _last_c(c, bits):
+    return c + 1 - (-(-bits // c) * c - bits)
+
+
+_PROC = []
+for _c in _FR_BITS:
+    for _g in (("G1", "G2") if _c in PAIRING else ("G1",)):
+        _ent = set()
+        for _w in _CS[_c]:
+            _ent.add((_w, "jacobian"))
+            _ent.add((_last_c(_w, _FR_BITS[_c]), "jacobian"))
+            if _w >= 10:
+                _ent.add((_w, "batchaffine"))
+        _PROC += ["wb:inner/%s/%s/c:%d/processor:%s" % (_c, _g, w, k) for (w, k) in sorted(_ent)]
+_COMMON += _PROC
+
 PROP = dict(
     rule=("one evaluation = one MultiExp/Fold call (receiver G1Affine/G1Jac/G2Affine/G2Jac) on a generated (points, scalars, NbTasks, "
           "GOMAXPROCS) compared with the reference value; non-trivial when n >= 2 and at least one of: a repeated, opposite or "
@@ -102,8 +126,9 @@ PROP = dict(
         "+ 2 CPU-ms per input point and is still running inside gnark-crypto at two probes >= 10 s apart (busy non-termination; CPU time "
         "does not depend on machine load); a wall-clock deadline (max(60 s, 100 x median) + 3 ms per point, extended up to 10x while the "
         "call is alive and below its CPU allowance) without either proof is reported as inconclusive (exit 2), never as a violation",
-        "white-box overlay (unexported partitionScalars/_innerMsmG1): G1 only, against a big.Int affine reference written inside the "
-        "overlay file; G2 processors are generated from the same template and are covered black-box",
+        "white-box overlay (unexported partitionScalars/_innerMsmG1/_innerMsmG2): G1 against a big.Int affine reference written inside the "
+        "overlay file; G2 (processor-table sweep) against [sum s_i k_i]G2 by one public ScalarMultiplication on dlog-known multiples of the "
+        "G2 generator and against the same call with window size 4",
         "stark-curve has no MultiExp; bw6-633 implements c in {4,5,6,8,12,16}, bw6-761 {4,5,8,10,16}, secp256k1 4..15",
     ],
     mandatory=dict(quick=_CS_QUICK + _COMMON, thorough=["c:%d" % c for c in range(4, 17)] + _COMMON),
@@ -127,7 +152,13 @@ PROP = dict(
     ] + [
         # white-box (overlay): signed-digit recoding identity for every c, and _innerMsmG1 called directly with every
         # implemented window size (c = 14..16 and their batch-affine processors on a few thousand points)
-        dict(name="wb." + c, kind="overlay", pkg="ecc/" + c, run="^TestVerifC04_", checks=(120, 1500), weight=3, timeout=(3600, 14400))
+        dict(name="wb." + c, kind="overlay", pkg="ecc/" + c, run="^TestVerifC04_(Digits|InnerMsm)$", checks=(100, 1500), weight=3,
+             timeout=(3600, 14400))
+        for c in CURVES if c != "stark-curve"
+    ] + [
+        # white-box processor-table sweep: every (window size, processor kind) entry of G1 and G2, once per iteration
+        dict(name="wbproc." + c, kind="overlay", pkg="ecc/" + c, run="^TestVerifC04_Processors", checks=(1, 6), weight=4,
+             timeout=(3600, 14400))
         for c in CURVES if c != "stark-curve"
     ],
 )
